@@ -109,6 +109,9 @@ class ConcreteCtx:
     def cover(self, label):
         pass
 
+    def probe(self, label, key=None, info=None):
+        pass
+
     def note(self, k):
         self.notes.append(k)
 
@@ -233,6 +236,35 @@ class SymCtx:
         self.unreproduced.append({"label": label, "key": k, "info": info, "tried": tried})
         return False
 
+    def probe(self, label, key=None, info=None):
+        """A path without real-number semantics (a law divided by zero: numpy goes on with inf / nan): decided on ONE concrete
+        witness of the path condition, run through the unmodified float code by the harness's concrete branch - weaker than a
+        solver verdict (one sample per path) and counted separately in the evidence."""
+        st = self.checks.setdefault(label, [0, 0, 0])
+        k = key or label
+        r, m = self.ex.feasible()
+        if m is None:
+            st[2] += 1
+            return
+        cand = {"label": label, "key": k, "info": info, "choices": dict(self.path_choices)}
+        soft = list(self.nice_terms)
+        import z3
+
+        models = list(self.ex.more_models(z3.BoolVal(True), [], soft)) or [m]
+        for mm in models[:2]:
+            md = self._model_dict(mm)
+            path, code, txt = replay_model(self.inst, cand, md)
+            if code == EXIT_REPRODUCED:
+                st[1] += 1
+                self.reproduced[k] = {"label": label, "key": k, "replay": path, "info": info, "model": md, "output": txt[-600:]}
+                return
+            try:
+                os.remove(path)
+            except OSError:
+                pass
+        st[0] += 1
+        self.notes["decided-on-concrete-witness"] = self.notes.get("decided-on-concrete-witness", 0) + 1
+
     def _model_dict(self, m):
         import z3
 
@@ -289,8 +321,15 @@ def run_instance(d):
 
         import copy
 
+        from . import pstate
+
+        for mn in pstate.MODS:
+            importlib.import_module(mn)
+        pstate.snapshot()
+
         def body():
             ctx._reset_path()
+            pstate.restore()  # each path starts from the package state of a fresh interpreter
             # a private copy per path: code under test must not be able to change the instance description that a
             # replay file is later written from (a seeded change did mutate a limits list in place)
             return fn(ctx, **copy.deepcopy(inst.params))
@@ -305,8 +344,15 @@ def run_instance(d):
                 in_repo = any("/sysloss/" in f.filename for f in frames)
                 from .symx import NonFinite
 
+                if isinstance(val, RuntimeError) and "Steady-state not achieved" in str(val):
+                    # the documented outcome "no convergence within maxiter" is never a crash, wherever a harness lets it escape
+                    path_outcomes["documented:RuntimeError"] = path_outcomes.get("documented:RuntimeError", 0) + 1
+                    return
+                # a call INTO one of the harness's own wrappers that fails on its signature leaves no frame of the wrapper
+                wrapper_sig = isinstance(val, TypeError) and any(
+                    w in str(val) for w in ("<locals>.", "<lambda>()", "sym_init()", "bounded()"))
                 if not isinstance(val, NonFinite) and not getattr(val, "_contract_model", False) and (
-                        not in_repo or frames[-1].filename.startswith(VERIF)):
+                        not in_repo or frames[-1].filename.startswith(VERIF) or wrapper_sig):
                     # raised by the harness / oracle / a shim, not by the code under test
                     raise HarnessError("%s: %r\n%s" % (type(val).__name__, val, tb))
                 # an exception the harness did not expect: candidate "crash" violation, to be replayed
